@@ -3,7 +3,18 @@
 use std::cell::RefCell;
 use std::fmt;
 
-pub trait Payload: Clone + PartialEq + fmt::Debug + 'static {
+/// With the `deser` feature every payload is serialisable (the copy probe then also makes copies through
+/// a serde round trip); without it the bound is empty.
+#[cfg(feature = "deser")]
+pub trait MaybeSerde: serde::Serialize + serde::de::DeserializeOwned {}
+#[cfg(feature = "deser")]
+impl<T: serde::Serialize + serde::de::DeserializeOwned> MaybeSerde for T {}
+#[cfg(not(feature = "deser"))]
+pub trait MaybeSerde {}
+#[cfg(not(feature = "deser"))]
+impl<T> MaybeSerde for T {}
+
+pub trait Payload: Clone + PartialEq + fmt::Debug + MaybeSerde + 'static {
     fn make(tid: u64, val: u64) -> Self;
     fn tid(&self) -> u64;
     fn val(&self) -> u64;
@@ -28,6 +39,26 @@ fn maybe_panic_in_display() {
 /// payloads of different sizes (the size of `Node<T>` is an input of `get_node_id`'s index arithmetic)
 #[derive(Clone, PartialEq, Eq, Debug)]
 pub struct Wide<const N: usize>(pub [u64; N]);
+
+#[cfg(feature = "deser")]
+impl<const N: usize> serde::Serialize for Wide<N> {
+    fn serialize<S: serde::Serializer>(&self, s: S) -> Result<S::Ok, S::Error> {
+        self.0.to_vec().serialize(s)
+    }
+}
+
+#[cfg(feature = "deser")]
+impl<'de, const N: usize> serde::Deserialize<'de> for Wide<N> {
+    fn deserialize<D: serde::Deserializer<'de>>(d: D) -> Result<Self, D::Error> {
+        let v = Vec::<u64>::deserialize(d)?;
+        let mut a = [0u64; N];
+        if v.len() != N {
+            return Err(serde::de::Error::custom("wrong length"));
+        }
+        a.copy_from_slice(&v);
+        Ok(Wide(a))
+    }
+}
 
 impl<const N: usize> Payload for Wide<N> {
     fn make(tid: u64, val: u64) -> Self {
@@ -162,6 +193,22 @@ impl Payload for Tok {
     }
 }
 
+#[cfg(feature = "deser")]
+impl serde::Serialize for Tok {
+    fn serialize<S: serde::Serializer>(&self, s: S) -> Result<S::Ok, S::Error> {
+        (self.tid, *self.heap).serialize(s)
+    }
+}
+
+#[cfg(feature = "deser")]
+impl<'de> serde::Deserialize<'de> for Tok {
+    fn deserialize<D: serde::Deserializer<'de>>(d: D) -> Result<Self, D::Error> {
+        let (tid, val) = <(u64, u64)>::deserialize(d)?;
+        // a token read back from a serialised form is a copy: own heap block, not counted as a payload drop
+        Ok(Tok { tid, heap: Box::new(val), ghost: true })
+    }
+}
+
 impl Clone for Tok {
     fn clone(&self) -> Self {
         Tok {
@@ -207,12 +254,14 @@ impl Drop for Tok {
 // per-line state machine.
 
 #[derive(Clone, PartialEq, Eq, Debug)]
+#[cfg_attr(feature = "deser", derive(serde::Serialize, serde::Deserialize))]
 pub struct TxtInner {
     pub tid: u64,
     pub val: u64,
 }
 
 #[derive(Clone, PartialEq, Eq)]
+#[cfg_attr(feature = "deser", derive(serde::Serialize, serde::Deserialize))]
 pub struct Txt(pub TxtInner);
 
 impl Payload for Txt {
